@@ -1642,7 +1642,10 @@ pub fn exec(fmt: &str, p: &[u8], fx: &Fixed) -> Exec {
     if let Some(dfmt) = fmt.strip_prefix("trunc-") {
         let t = tracked(p.len(), || decode_plain(dfmt, p));
         check_common(&t, p.len(), "decoding a strict prefix of a valid file", &mut fails);
-        if let Out::Ok(d) = &t.out {
+        // zero bytes are, by design, the encoding of the empty attribute map (property C14): the 0-byte prefix of
+        // an attribute blob is therefore a valid blob, not an undetected truncation
+        let by_design = dfmt.starts_with("attr") && p.is_empty();
+        if let (Out::Ok(d), false) = (&t.out, by_design) {
             let key = if p.is_empty() { format!("{dfmt}-empty-input-accepted") } else { format!("{dfmt}-prefix-accepted") };
             fails.push((key, format!("a strict prefix ({} bytes) of a valid file decodes to Ok ({d})", p.len())));
         }
